@@ -542,6 +542,12 @@ func (st *c42State) statement(cs *c42Sess) {
 		}
 	}
 	r, site := cs.s.ExecRecover(g.q)
+	if cs.manual {
+		// any statement of a session without autocommit opens its implicit
+		// transaction and may take table snapshots: from here on it counts as
+		// open (no DDL by others, no engine flip) until it commits
+		cs.wrote = true
+	}
 	env.Kind(fmt.Sprintf("%s/%s/%s:%v", orDash(mode), g.class, g.kind, r.Err == nil))
 	env.Logf("%s [tx=%s engineRO=%v]: %s -> err=%v", cs.s.Name, orDash(cs.tx), st.engRO, g.q, r.Err)
 	if site != "" {
